@@ -980,7 +980,8 @@ def parallel_quire_to_posit(ctx, prog, rule, q, frac_bits, full, p_step=1, worke
     import multiprocessing as mp
     import os
     T = sum(b for b, _ in q.fields)
-    ps = list(range(0, T - 1, p_step))
+    # sampled leading-one positions always include the limb boundaries (the leading one on the top / bottom bits of a limb)
+    ps = sorted(set(range(0, T - 1, p_step)) | {p_ for p_ in range(T - 1) if p_ % 64 in (0, 1, 62, 63)})
     workers = workers or min(16, os.cpu_count() or 4, max(1, len(ps) // 4))
     if workers <= 1:
         return check_quire_to_posit(ctx, prog, rule, q, frac_bits, full, ps=ps)
